@@ -63,5 +63,5 @@ Definition init (i c : nat -> Z) : st :=
 (* the accessor surface of the (repaired) implementation, as enumerated by harness/props/c02.py:
    every accessor hands out a copy.  The harness checks that its enumeration has exactly
    [n_accessors] entries and that no public accessor of the real classes is missing from it. *)
-Definition n_accessors : nat := 49.
+Definition n_accessors : nat := 50.
 Definition impl_mode (a : nat) : amode := Copy (Internal a).
